@@ -7,6 +7,7 @@ ENGINE = "pyvc executor's encoding of the Python subset (DESIGN 1.3): ints exact
 
 
 def C04():
+    from contracts.replay_pagination import replay_row_metadata
     from contracts.pagination_core import AssignPages
     from contracts.replay_pagination import replay_assign_pages
     return Property(
@@ -18,7 +19,7 @@ def C04():
                   "strategy when subline_by is set, else page_by, else default, and hands it the caller's body and the reservation; VCs by z3/cvc5",
         trusted_base=[SOLVERS, ENGINE, POLARS],
         assumptions=["str() injective on non-null group keys of one dtype (the flag computation compares str(value))"],
-        replayers={"pagination/core.py::PageBreakCalculator._assign_pages": replay_assign_pages},
+        replayers={"pagination/core.py::PageBreakCalculator._assign_pages": replay_assign_pages, "pagination/core.py::PageBreakCalculator.calculate_row_metadata": replay_row_metadata},
         design_ref="4/C04, A1",
     )
 
@@ -46,7 +47,7 @@ def C06():
                    "rtf/syntax.py::RTFSyntaxGenerator.generate_page_settings": R.replay_page_geometry,
                    "encoding/renderer.py::PageRenderer._should_show": R.replay_should_show,
                    "pagination/processor.py::PageFeatureProcessor._should_show_element": R.replay_should_show,
-                   "pagination/strategies/*": D("header_repeat")},
+                   "pagination/strategies/*": D("header_repeat"), "encoding/renderer.py::PageRenderer.render": D("placement"), "encoding/unified_encoder.py::": D("placement"), "services/encoding_service.py::": D("placement"), "attributes.py::": D("placement")},
         design_ref="4/C06, A15-A16",
     )
 
@@ -84,7 +85,7 @@ def C08():
         replayers={"row.py::Utils._col_widths": R.replay_col_widths, "row.py::Utils._inch_to_twip": R.replay_inch_to_twip,
                    "*spanning*": D("spanning_edges"), "*_render_column_headers*": D("edges"), "*encode_column_header*": D("edges"),
                    "encode.py::RTFDocument.__init__": R.replay_document_init,
-                   "*_render_body*": D("spanning_edges")},
+                   "*_render_body*": D("spanning_edges"), "services/encoding_service.py::RTFEncodingService.prepare_dataframe_for_body_encoding": D("proportional"), "encoding/unified_encoder.py::": D("proportional"), "attributes.py::TableAttributes._encode": D("proportional")},
         design_ref="4/C08, A4",
     )
 
@@ -402,7 +403,7 @@ def C09():
         assumptions=["the attribute column slicing after page_by/subline_by removal is proved for representative fields of type(attrs).model_fields (unit PrepareFrame)",
                      "PaginationBorders uses a representative-field abstraction of type(page_attrs).model_fields (two border matrices + one generic matrix attribute)"],
         replayers={"attributes.py::BroadcastValue": R.replay_broadcast, "encoding/renderer.py::PageRenderer._render_body": D("row_offset"),
-                   "attributes.py::TableAttributes._encode": D("row_offset")}, design_ref="4/C09, A5-A6")
+                   "attributes.py::TableAttributes._encode": D("row_offset"), "attributes.py::TableAttributes._encode#C09.border": D("border_widths"), "services/encoding_service.py::": D("row_offset"), "pagination/": D("row_offset")}, design_ref="4/C09, A5-A6")
 
 
 def C13():
@@ -463,6 +464,7 @@ def C17():
 
 
 def C03():
+    from contracts.replay_pagination import replay_row_metadata, replay_reserved_rows
     from contracts.pagination_core import AssignPages
     from contracts.headers import RenderColumnHeaders
     from contracts.strwidth import GetStringWidth
@@ -480,7 +482,7 @@ def C03():
                      "and table-rendered footnote/source the comparison is not yet under contract in this check",
                      "one column width per displayed column and the reservation reaching the strategy are proved at the call site (unit EncodeBodySection) "
                      "relative to the assumed result of prepare_dataframe_for_body_encoding"],
-        replayers={"pagination/core.py::PageBreakCalculator._assign_pages": replay_assign_pages}, design_ref="4/C03, A2-A3")
+        replayers={"pagination/core.py::PageBreakCalculator._assign_pages": replay_assign_pages, "pagination/core.py::PageBreakCalculator.calculate_row_metadata": replay_row_metadata, "services/document_service.py::": replay_reserved_rows}, design_ref="4/C03, A2-A3")
 
 
 PROPERTIES = {"C03": C03, "C17": C17, "C11": C11, "C20": C20, "C13": C13, "C01": C01, "C02": C02, "C05": C05, "C07": C07, "C09": C09, "C14": C14, "C15": C15, "C18": C18, "C04": C04, "C06": C06, "C08": C08, "C10": C10, "C12": C12, "C16": C16, "C19": C19}
